@@ -612,7 +612,14 @@ class SSHStreamSession(Generic[AnyStr]):
             bar = cast(AnyStr, '|' if self._encoding else b'|')
             seplist = list(cast(Iterable[AnyStr], separator))
             seplen = max(len(sep) for sep in seplist)
-            separators = bar.join(re.escape(sep) for sep in seplist)
+
+            # Match at the first position where the data ends with any
+            # of the separators, so the match which ends first wins no
+            # matter how the data was split into chunks
+            lookbehind = cast(AnyStr, '(?<=%s)' if self._encoding
+                              else b'(?<=%s)')
+            separators = bar.join(lookbehind % re.escape(sep)
+                                  for sep in seplist)
             pat = re.compile(separators)
 
         curbuf = 0
